@@ -4,6 +4,7 @@ import (
 	"fmt"
 	"math/big"
 	"testing"
+	"time"
 
 	sdk "github.com/cosmos/cosmos-sdk/types"
 
@@ -207,6 +208,18 @@ func TestC09(t *testing.T) {
 		cfg := cdpCfg{priceMoves: true, bids: true, lockers: false, unsolicited: false, liquidateMsg: true, unsafeBias: true, maxGap: 0}
 		r := newCdpRunner(u, rnd, rec, cfg, newC09Mon(u, rec, batch))
 		r.run(cdpSteps())
+		// slow ramp: collateral prices fall 1.5 % per block, every vault passes through the band around its own ratio
+		for i := 0; i < ev.Pick(40, 120) && !r.panicked; i++ {
+			for _, as := range u.assets {
+				if as.Mint || as.Denom == "uusdc" || as.Denom == "adai" {
+					continue
+				}
+				p, _ := u.price(as)
+				as := as
+				r.env("price", "ramp "+as.Denom, func() { u.setPrice(as.Denom, p*985/1000+1, true) })
+			}
+			r.block(6 * time.Second)
+		}
 		if run == 0 {
 			rec.Sample(map[string]interface{}{"variant": variant, "batch": batch, "oplog_tail": r.tail(10)})
 		}
